@@ -235,7 +235,7 @@ pub fn structural_damage(p: &Parsed, image: &Image, rng: &mut Rng) -> DamageOp {
         6 => DamageOp::SwapBlocks { file_a: file, block_a: rng.usize_below(4), file_b: rng.usize_below(nfiles), block_b: rng.usize_below(4) },
         7 => DamageOp::SwapFiles { file_a: file, file_b: rng.usize_below(nfiles) },
         8 => DamageOp::AppendGarbage { file, len: *rng.pick(&[1usize, 7, 100, BLOCK, BLOCK + 5]), seed: rng.next_u64() },
-        9 => DamageOp::AddEntry { name: rng.pick(&["wal-0000000000000000000", "wal-000000000000000000001", "lost+found", "wal-00000000000000000abc", ".wal-00000000000000000001", "wal-99999999999999999999", "wal-18446744073709551616", "wal-+0000000000000000007", "wal--0000000000000000007"]).to_string(), kind: rng.below(3) as u8, len: rng.usize_below(300), seed: rng.next_u64() },
+        9 => DamageOp::AddEntry { name: rng.pick(&["wal-0000000000000000000", "wal-000000000000000000001", "lost+found", "wal-00000000000000000abc", ".wal-00000000000000000001", "wal-99999999999999999999", "wal-18446744073709551616", "wal-+0000000000000000007", "wal--0000000000000000007", "wal\u{e9}0000000000000000001", "wa\u{e9}-0000000000000000001", "wal-\u{e9}000000000000000001", "wal-000000000000000000\u{e9}", "\u{1F600}al-0000000000000001"]).to_string(), kind: rng.below(3) as u8, len: rng.usize_below(300), seed: rng.next_u64() },
         10 => DamageOp::AddEntry { name: wal_name(next_number), kind: rng.below(2) as u8, len: 0, seed: 0 },
         11 => DamageOp::AddEntry { name: wal_name(*rng.pick(&[u64::MAX, u64::MAX - 1, 0, 1 << 63])), kind: 2, len: *rng.pick(&[0usize, 5, BLOCK, FILE_BYTES]), seed: rng.next_u64() },
         _ => aimed_overwrite(p, image, rng),
@@ -285,7 +285,7 @@ pub fn raw_image(seed: u64, class: u8) -> Image {
             let big = [u64::MAX, u64::MAX - 1, 1 << 63, (1 << 62) + 5, 0, 1, 7];
             for _ in 0..n {
                 let q = format!("q{}", rng.below(3));
-                match rng.below(14) {
+                match rng.below(16) {
                     0 => b.entry(&encode_entry(9, 3, q.as_bytes(), &[])), // unknown record type
                     1 => b.entry(&encode_entry(2, *rng.pick(&big), q.as_bytes(), &[])),
                     2 => b.entry(&encode_entry(1, *rng.pick(&big), q.as_bytes(), &[])),
@@ -329,6 +329,7 @@ pub fn raw_image(seed: u64, class: u8) -> Image {
                         let p0 = rng.below(10);
                         b.entry(&encode_entry(4, p0, q.as_bytes(), &encode_batch(&[(p0, &payload[..]), (p0 + 1, &payload[..1])])));
                     }
+                    13 => b.entry(&encode_entry(4, *rng.pick(&big), format!("fresh{}", rng.below(3)).as_bytes(), &[])), // batch without items, queue unknown
                     _ => b.entry(&encode_entry(4, 0, q.as_bytes(), &[1, 2, 3, 4, 5])), // truncated inner header
                 }
             }
